@@ -5,15 +5,15 @@
                                                    adm: admissible by construction of the asset; reps: "<asset>/<rep>" of
                                                    every Representation of every MPD of the asset
      hdr    {beh, root, map, desc}                 a behaviour starts: every metadata file has been deleted
-     damage {rep, kind, variant, off}              the file of rep was replaced (kind as in RepCacheOps)
+     damage {rep, kind, variant, off, precond}     the file of rep was replaced (kind as in RepCacheOps)
      remove {rep}                                  the file of rep was deleted
      start  {inst, write, ok, err}                 a server was started on the current files (ok = FALSE: it did not start;
                                                    the asset events then say "nothing served")
      asset  {inst, asset, listed, cls, diff}       answers of that server for the request pool of one asset
      tl     {inst, asset, rep, N, n0, tfdt, dur}   read-mode instance with a metadata root: segments n0, n0+1, ... as served
      files  {inst, write, files}                   metadata files after the start ([[path, digest], ...], sorted)
-   The file kinds are tracked with the oracle's own operators; a damage / remove event the oracle machine does not
-   enable blocks the trace (=> machinery error, never a verdict). *)
+   The file kinds are tracked with the oracle's own operators; a damage / remove event that is impossible on the tracked
+   files blocks the trace (=> machinery error, never a verdict). *)
 EXTENDS TraceLib, RepCacheOps
 VARIABLES l, ref, file, root, write, wsnap, wvalid
 vars == <<l, ref, file, root, write, wsnap, wvalid>>
@@ -52,8 +52,11 @@ Hdr == /\ e.ev = "hdr"
 
 Damage == /\ e.ev = "damage"
           /\ e.rep \in DOMAIN file
-          /\ CanDamage(root, e.kind, file[e.rep])
-          /\ file' = [file EXCEPT ![e.rep] = e.kind]
+          /\ root # "disabled" /\ e.kind \in DamageKinds
+          /\ (e.precond /\ e.kind \in {"truncated", "plainjson"}) => file[e.rep] = "good"
+          \* precond = FALSE: the bytes found were not the good file the machine assumes (a write-mode start left no
+          \* usable file - judged at that start); what results is of unknown content: the lenient kind
+          /\ file' = [file EXCEPT ![e.rep] = IF e.precond THEN e.kind ELSE "garbage"]
           /\ wvalid' = FALSE
           /\ UNCHANGED <<ref, root, write, wsnap>>
 
